@@ -126,7 +126,7 @@ PROPERTIES = {
         "level_text": "TensorCore!Vjp defines the transpose-Jacobian of every operation from its forward definition (LinVjp: <seed, F(e_j)> on basis vectors for every operation linear in the differentiated operand; a table of scalar partials for the point-wise rest); TLC evaluates it for each operation x parameterisation x broadcast pattern x tracked subset with non-uniform (prime) seeds and the trace specification requires the gradients the real crate deposits to equal it bit for bit",
         "level_note": TRACE_NOTE + "; transcendental operations (ln, exp, sigmoid, softmax, non-integer powf, general division) are judged in the real domain through spec-generated symbolic definitions",
         "technique": "TLA+ spec (definition-derived VJPs, checked against dual numbers by TLC) as case oracle + TLC trace validation of executions of the real crate",
-        "mc": lambda tier: [mc("MC_Rules_quick" if tier == "quick" else "MC_Rules_thorough", module="MC_Rules", workers=4)],
+        "mc": lambda tier: [mc("MC_Rules_quick" if tier == "quick" else "MC_Rules_thorough", module="MC_Rules", workers=10)],
         "families": lambda tier, seed: [
             {"name": "single_op_vjp", "cases": FE.c02_cases(tier, seed),
              "what": "one operation per case, backward with a prime-valued seed, every deposited gradient compared: element-wise ops over broadcast pairs and tracked subsets, neg/scale/powf(-2..4)/reciprocal/relu/sum(k)/reshape, matmul (flags, additive term, leading patterns, rank-1 forms), conv (strides 1..3, batches), user operations",
@@ -151,8 +151,7 @@ PROPERTIES = {
         "level_note": ENGINE_NOTE,
         "technique": "TLC model checking of AutodiffImpl against AutodiffAbs + TLC trace validation of spec-generated and random programs run on the real crate",
         "mc": lambda tier: [mc("MC_Engine_p1" if tier == "quick" else "MC_Engine_t3"),
-                            mc("GenEngine_forms", module="GenEngine"),
-                            mc("MC_Engine_refine")],
+                            mc("GenEngine_forms", module="GenEngine")] + ([mc("MC_Engine_refine")] if tier == "thorough" else []),
         "families": lambda tier, seed: [
             tlc_family("tlc_graphs", "GenEngine_pass", "C01", limit=2500 if tier == "quick" else 30000, seed=seed,
                        mask=M_GRAD, exhaustive=True, require={"passes": 1000}),
@@ -187,10 +186,10 @@ PROPERTIES = {
         "rule": "a case = one broadcast pair x number of uses x number of passes; distinct by program hash",
     },
     "C09": {
-        "level_text": "The specification fixes tracking per handle (Apply: result tracked and operands recorded iff some operand handle is tracked; Backward reaches only through tracked-at-use edges; gradient arrays are plain); TLC checks KidsIffTracked / PassRefinesAbs over all flag assignments incl. the start_tracking-without-keep handles, and the trace specification compares, after every step of spec-generated and random programs on the real crate, every live handle's tracked flag (API round trip), gradient presence, gradient tracking, previous-flag return values and Vec::from of operands of untracked results",
+        "level_text": "The specification fixes tracking per handle (Apply: result tracked and operands recorded iff some operand handle is tracked; Backward reaches only through tracked-at-use edges; gradient arrays are plain); TLC checks KidsIffTracked and the refinement AbsRefined (AutodiffImpl implements the atomic AutodiffAbsSpec) over all flag assignments incl. the start_tracking-without-keep handles, and the trace specification compares, after every step of spec-generated and random programs on the real crate, every live handle's tracked flag (API round trip), gradient presence, gradient tracking, previous-flag return values and Vec::from of operands of untracked results",
         "level_note": ENGINE_NOTE + "; gradient presence on interior nodes reached through a handle without keep is left to the implementation (may-store), as the property allows",
         "technique": "TLC model checking (flag variants) + TLC trace validation of flag-heavy programs on the real crate",
-        "mc": lambda tier: [mc("MC_Engine_flags" if tier == "quick" else "MC_Engine_t2p"), mc("GenEngine_mc", module="GenEngine")],
+        "mc": lambda tier: [mc("MC_Engine_refine" if tier == "quick" else "MC_Engine_t2p"), mc("GenEngine_mc", module="GenEngine")],
         "families": lambda tier, seed: [
             {"name": "tracking_rules", "cases": FE.c09_cases(tier, seed), "mask": M_TRACK,
              "what": "every operation x every tracked subset of its operands (result flag, no reference kept when untracked, gradients only where tracked, flags restored after passes, gradients plain), untracked intermediates, random flag-heavy programs",
